@@ -291,6 +291,16 @@ pub mod slots {
     /// C03's reclamation clause for calls that must free an old table *they* emptied (`l0` =
     /// leftovers before the call; an old table that was already empty may stay until the next
     /// key-adding call, clear or drain).
+    /// [C03] progress clause for a call that added one key: it moved min(R, pending) leftovers,
+    /// where pending = the leftovers before the call or, if the call itself started the resize,
+    /// the former main table's population. `l0`/`main_len0` are taken before the call, after
+    /// `reset_counters()`.
+    pub fn post_progress<K, V>(m: &HashMap<K, V, S>, l0: usize, main_len0: usize) {
+        let grew = acct::allocs() == 1;
+        let pending = if l0 > 0 { l0 } else if grew { main_len0 } else { 0 };
+        let step = if pending < R_SPEC { pending } else { R_SPEC };
+        assert!(old_len(m) == pending - step, "[C03] a key-adding call did not move min(R, remaining) leftovers");
+    }
     pub fn post_freed_if_empty<K, V>(m: &HashMap<K, V, S>, l0: usize) {
         if let Some((ot, _)) = m.verif_parts().1 {
             assert!(ot.len() != 0 || l0 == 0, "[C03] this call emptied the old table but did not release it");
